@@ -175,6 +175,8 @@ def any_profile(reopen_ok=False, weights=None, with_manydirs=False):
              'links': links(reopen_ok=reopen_ok), 'boot': boot(reopen_ok=reopen_ok)}
     if with_manydirs:
         table['manydirs'] = manydirs()
+    if 'exactfill' in w:
+        table['exactfill'] = exactfill(reopen_ok=reopen_ok)
     alts = []
     for name, n in w.items():
         s = table[name].map(lambda p, name=name: dict(p, profile=name))
@@ -232,7 +234,7 @@ _old_any_profile = any_profile
 
 
 def any_profile(reopen_ok=False, weights=None, with_manydirs=False):
-    w = dict(weights or {'mixed': 5, 'growshrink': 2, 'deep': 2, 'links': 3, 'boot': 2})
+    w = dict(weights or {'mixed': 5, 'growshrink': 2, 'deep': 2, 'links': 3, 'boot': 2, 'exactfill': 1})
     nh = w.pop('hybrid', 1)
     base = _old_any_profile(reopen_ok, w, with_manydirs)
     total = sum(w.values())
@@ -254,3 +256,71 @@ def biglinks(cfg=None, reopen_ok=True):
         body_choices.append(reopen)
     body = st.lists(st.one_of(*body_choices), min_size=6, max_size=30)
     return program(c, st.builds(lambda a, f, b: a + f + b, first, fill, body))
+
+
+def _recipe(target, sizes, picks):
+    """Multiset of record sizes (from `sizes`) summing exactly to `target`, steered by drawn integers."""
+    reach = [False] * (target + 1)
+    reach[0] = True
+    for t in range(1, target + 1):
+        reach[t] = any(t >= z and reach[t - z] for z in sizes)
+    if not reach[target]:
+        return None
+    out, t, k = [], target, 0
+    while t > 0:
+        opts = [z for z in sizes if t >= z and reach[t - z]]
+        z = opts[picks[k % len(picks)] % len(opts)]
+        k += 1
+        out.append(z)
+        t -= z
+    return out
+
+
+def exactfill(cfg=None, reopen_ok=False):
+    """Directories whose records (ISO9660 or Joliet records, or UDF file identifiers) add up to
+    *exactly* one or two sectors at some record boundary, then one or more further entries - the
+    boundary case of every 'does the next record still fit' comparison."""
+    c = cfg if cfg is not None else cfg_st(rr=st.just(None), xa=st.just(False))
+
+    def build(target_ns, nsect, picks, order, extra, tail, subdir):
+        ops = []
+        d = 0
+        if subdir:
+            ops.append({'k': 'add_dir', 'd': 0, 'ns': 7, 'sz': 0, 'rsz': 0, 'usz': 0, 'lead': 1, 'salt': 0, 'mode': None})
+            d = 1
+        if target_ns == 'iso':
+            # record = 33 + L (+1 if L even); "." and ".." take 68 bytes
+            sizes = {7: 40, 8: 42, 9: 42, 10: 44, 11: 44}
+            rec = _recipe(2048 * nsect - 68, sorted(set(sizes.values())), picks)
+            inv = {}
+            for L, z in sizes.items():
+                inv.setdefault(z, []).append(L)
+            lens = [{'iso': inv[z][picks[(i + 3) % len(picks)] % len(inv[z])]} for i, z in enumerate(rec or [])]
+        elif target_ns == 'jol':
+            # Joliet record = 34 + 2n
+            sizes = {n: 34 + 2 * n for n in range(4, 12)}
+            rec = _recipe(2048 * nsect - 68, sorted(set(sizes.values())), picks)
+            inv = {z: n for n, z in sizes.items()}
+            lens = [{'jol': inv[z]} for z in (rec or [])]
+        else:
+            # UDF FID = 38 + (1 + n) padded to 4; the parent FID takes 40 bytes
+            sizes = {n: ((38 + 1 + n + 3) // 4) * 4 for n in range(4, 20)}
+            rec = _recipe(2048 * nsect - 40, sorted(set(sizes.values())), picks)
+            inv = {}
+            for n, z in sizes.items():
+                inv.setdefault(z, []).append(n)
+            lens = [{'udf': inv[z][picks[(i + 5) % len(picks)] % len(inv[z])]} for i, z in enumerate(rec or [])]
+        adds = [{'k': 'add_fp', 'd': d, 'ns': 7, 'len': [0, 1, 1, 2049][picks[i % len(picks)] % 4], 'sz': 0, 'rsz': 0, 'usz': 0,
+                 'lead': picks[(i + 1) % len(picks)] % 3, 'salt': i, 'mode': None, 'ck': 0, 'file': False, 'xl': xl} for i, xl in enumerate(lens)]
+        # the further entries sort after the recipe (lead 'Z' / 'z'), so the boundary stays exact
+        extra = [dict(o, lead=25) for o in extra]
+        # drawn insertion order (sorted order on disc is by name anyway)
+        adds = [adds[i] for i in sorted(range(len(adds)), key=lambda i: (order[i % len(order)], i))]
+        return ops + adds + extra + tail
+    extra = st.lists(add_fp(d=st.sampled_from([0, 1]), length=SMALL_LEN, rsz=st.integers(0, 1), file=st.just(False)), min_size=1, max_size=4)
+    tail_choices = [rm_file, rm_file, write, query, add_dir(d=st.sampled_from([0, 1]))]
+    if reopen_ok:
+        tail_choices.append(reopen)
+    tail = st.lists(st.one_of(*tail_choices), min_size=0, max_size=5)
+    return program(c, st.builds(build, st.sampled_from(['iso', 'iso', 'jol', 'udf']), st.sampled_from([1, 1, 2]), st.lists(I, min_size=8, max_size=8),
+                                st.lists(I, min_size=6, max_size=6), extra, tail, st.booleans()))
